@@ -1,5 +1,6 @@
 """C17: temporal statistics vs exact rational recomputation from the model (A.9); inter-event
 distributions vs the histogram of gaps of the actual stream."""
+import dynetx as dn
 from collections import Counter
 from fractions import Fraction
 from itertools import combinations
@@ -51,9 +52,11 @@ def do_probe_stats(world, rep, op):
                 raise Violation(tag + '.inter-event', name + ':mass', {'impl': repr(dict(r))})
 
     check_dist('global', lambda: g.inter_event_time_distribution(), stream)
+    check_dist('dn.global', lambda: dn.inter_event_time_distribution(g), stream)
     nodes = list(m.nodes)
     for u in nodes[:4]:
         check_dist('node', lambda: g.inter_event_time_distribution(u), [e for e in stream if e[0] == u or e[1] == u])
+        check_dist('dn.node', lambda: dn.inter_event_time_distribution(g, u), [e for e in stream if e[0] == u or e[1] == u])
         n_eval += 1
         if m.directed:
             check_dist('out-node', lambda: g.inter_out_event_time_distribution(u), [e for e in stream if e[0] == u])
